@@ -218,6 +218,7 @@ class ModelLoader(object):
                                 outputdir=os.path.dirname(__file__),
                                 tabmodule='xtuml.__xtuml_parsetab')
     
+    @xtuml.tools._verif_traced('input')
     def input(self, data, name='<string>'):
         '''
         Parse *data* directly from a string. The *name* is used when reporting
@@ -454,6 +455,7 @@ class ModelLoader(object):
         self.populate_instances(metamodel)
         self.populate_connections(metamodel)
 
+    @xtuml.tools._verif_traced('build')
     def build_metamodel(self, id_generator=None):
         '''
         Build and return a *xtuml.MetaModel* containing previously loaded input.
